@@ -165,6 +165,8 @@ PINS = {
     "runner/timeline.py:_TimelineCollector.record": "8596ce458d9f9d91",
     "runner/sync_core.py:_handle_abort_attempt_end": "6aaf6286d3ebf8e7",
     "runner/sync_core.py:_handle_success_attempt_end": "254d541d66e629c7",
+    # the sync attempt-timeout wrapper (one executor per attempt: a hung attempt never delays the next; DESIGN §15)
+    "runner/sync_core.py:_call_with_timeout": "6c627cbccb9c1245",
     "runner/async_core.py:_handle_abort_attempt_end": "6aaf6286d3ebf8e7",
     "runner/async_core.py:_handle_success_attempt_end": "254d541d66e629c7",
 }
@@ -188,7 +190,7 @@ HELPERS = {"runner/logic.py": ["should_classify_result", "determine_action_from_
            "retry_sync.py": ["Retry.call", "Retry.execute"],
            "retry_async.py": ["AsyncRetry.call", "AsyncRetry.execute"],
            "runner/sync_runner.py": None, "runner/async_runner.py": None, "runner/timeline.py": ["_TimelineCollector.__init__", "_TimelineCollector.record"],
-           "runner/sync_core.py": ["_handle_abort_attempt_end", "_handle_success_attempt_end"],
+           "runner/sync_core.py": ["_handle_abort_attempt_end", "_handle_success_attempt_end", "_call_with_timeout"],
            "runner/async_core.py": ["_handle_abort_attempt_end", "_handle_success_attempt_end"]}
 
 
